@@ -95,7 +95,8 @@ func genLiveSegment(log *slog.Logger, vodFS fs.FS, a *asset, cfg *ResponseConfig
 			startTime := uint64(meta.newTime)
 			endTime := startTime + uint64(meta.newDur)
 			timescale := uint64(meta.timescale)
-			emsg, err := scte35.CreateEmsgAhead(startTime, endTime, timescale, *cfg.SCTE35PerMinute)
+			wallOffset := uint64(cfg.StartTimeS%60) * timescale // Media time 0 is at availabilityStartTime
+			emsg, err := scte35.CreateEmsgAheadOffset(startTime, endTime, timescale, *cfg.SCTE35PerMinute, wallOffset)
 			if err != nil {
 				return so, fmt.Errorf("insertSCTE35: %w", err)
 			}
